@@ -158,6 +158,13 @@ impl crate::platform::Arch for ElfX86_64 {
 
         let offset = offset_in_section as usize;
 
+        // The checks below look at the bytes before `offset`. Make sure that a relocation with an
+        // offset that's outside of the section can't cause us to index out of bounds. Such a
+        // relocation gets reported as an error when we try to apply it.
+        if offset > section_bytes.len() {
+            return None;
+        }
+
         match relocation_kind {
             object::elf::R_X86_64_REX_GOTPCRELX | object::elf::R_X86_64_CODE_4_GOTPCRELX
                 if (relocation_kind == object::elf::R_X86_64_CODE_4_GOTPCRELX
@@ -220,7 +227,7 @@ impl crate::platform::Arch for ElfX86_64 {
                 }
             }
             object::elf::R_X86_64_GOTPCRELX => {
-                match section_bytes.get(offset - 2)? {
+                match section_bytes.get(offset.checked_sub(2)?)? {
                     // mov *x(%rip), reg
                     0x8b => {
                         if is_absolute || is_absolute_address {
@@ -366,7 +373,7 @@ impl crate::platform::Arch for ElfX86_64 {
             }
             object::elf::R_X86_64_TLSLD if output_kind.is_executable() => {
                 // lea    0x0(%rip),%rdi
-                if section_bytes.get(offset - 3..offset)? == [0x48, 0x8d, 0x3d] {
+                if section_bytes.get(offset.checked_sub(3)?..offset)? == [0x48, 0x8d, 0x3d] {
                     match section_bytes.get(offset + 4..offset + 6) {
                         // PC-relative direct call
                         Some(&[0xe8, _]) => {
@@ -427,7 +434,7 @@ impl crate::platform::Arch for ElfX86_64 {
             object::elf::R_X86_64_GOTPC32_TLSDESC if output_kind.is_executable() => {
                 // We require that the instruction that this relocation applies to is a LEA
                 // instruction.
-                let bytes = section_bytes.get(offset - 3..offset - 1);
+                let bytes = section_bytes.get(offset.checked_sub(3)?..offset - 1);
                 if bytes == Some(&[0x48, 0x8d]) || bytes == Some(&[0x4c, 0x8d]) {
                     return Some(Relaxation {
                         kind: RelaxationKind::TlsDescToInitialExec,
@@ -503,7 +510,7 @@ impl TlsGdForm {
     fn identify(bytes: &[u8], offset: usize) -> Option<Self> {
         // data16 lea 0x0(%rip),%rdi
         // data16 data16 rex.W call {relative function offset}
-        if bytes.get(offset - 4..offset) == Some(&[0x66, 0x48, 0x8d, 0x3d])
+        if bytes.get(offset.checked_sub(4)?..offset) == Some(&[0x66, 0x48, 0x8d, 0x3d])
             && bytes.get(offset + 4..offset + 8) == Some(&[0x66, 0x66, 0x48, 0xe8])
         {
             return Some(Self::Regular);
@@ -513,7 +520,7 @@ impl TlsGdForm {
         // movabs $X,%rax
         // TODO: This branch is not currently exercised by our tests. Add a test and document the
         // third instruction.
-        if bytes.get(offset - 3..offset) == Some(&[0x48, 0x8d, 0x3d])
+        if bytes.get(offset.checked_sub(3)?..offset) == Some(&[0x48, 0x8d, 0x3d])
             && bytes.get(offset + 4..offset + 6) == Some(&[0x48, 0xb8])
             && bytes.get(offset + 14..offset + 19) == Some(&[0x48, 0x01, 0xd8, 0xff, 0xd0])
         {
